@@ -332,7 +332,8 @@ Theorem c20_features_value_never_unimplemented : forall s,
 Proof. exact features_value_has_arm. Qed.
 Print Assumptions c20_features_value_never_unimplemented.
 
-(* `--verbose`: `LevelFilter::from_str(&v).unwrap()` inside the value parser never fails *)
+(* `--verbose`: `LevelFilter::from_str(&v).unwrap()` inside the value parser never fails - whatever the ignore_case setting of
+   the option, because from_str itself ignores the ASCII case; a possible value that is not a level name breaks this *)
 Theorem c20_verbose_value_never_unwraps : forall s,
   vp_accepts (vp_of_field "verbose"%str) s = true -> level_from_str s <> None.
 Proof. exact verbose_value_has_level. Qed.
